@@ -1,5 +1,5 @@
 (* C12 — no missing piece is ever withheld by a stale reservation. *)
-From Rdest Require Import Base Consts Wire Manager MgrProofs Handler HandlerProofs PairProofs.
+From Rdest Require Import Base Consts Wire Manager MgrProofs Handler HandlerProofs PairProofs WfProofs.
 Open Scope N_scope.
 
 (* a piece once owned stays owned, whatever command the manager handles *)
@@ -47,6 +47,30 @@ Proof.
   pose proof (HP p Ep) as V. unfold pview, hview in V. injection V as Vi Vc. split; assumption.
 Qed.
 
+(* NO MANAGER PANIC.  Under well-formedness (one status per piece, one advertised bit per piece for every peer, assigned
+   indices in range) none of the manager's panic sites is reachable for a command the tasks can send, with any chooser
+   answer in range (C13: the chooser's answers are eligible pieces, hence in range: pick_ok_valid) ... *)
+Theorem C12_no_manager_panic : forall m c pick, WFm m -> sendable m c -> valid_pick m pick -> mstep m c pick <> Panic.
+Proof. exact no_manager_panic. Qed.
+(* ... well-formedness holds initially and is preserved by every command, rotation and tracker answer ... *)
+Theorem C12_wf_preserved :
+  (forall st plens, length st = length plens -> WFm (mkmgr st [] [] 0 false plens)) /\
+  (forall m c pick m' rep bc sp, WFm m -> valid_pick m pick -> mstep m c pick = Ok (m', rep, bc, sp) -> WFm m') /\
+  (forall m rates new_opt m' fl, WFm m -> change_conn_state m rates new_opt = Ok (m', fl) -> WFm m') /\
+  (forall m peers, WFm m -> WFm (fst (handle_tracker_resp m peers))) /\
+  (forall m p pick, WFm m -> pick_ok m p pick = true -> valid_pick m pick).
+Proof.
+  split; [exact WF_init|]. split; [intros; eapply WF_step; eassumption|]. split; [intros; eapply WF_rotation; eassumption|].
+  split; [intros; apply WF_tracker_resp; assumption|]. intros; eapply pick_ok_valid; eassumption.
+Qed.
+(* ... and `sendable` is what the tasks guarantee: in every reachable composition, the command an event makes the task
+   send (a Have index below the piece count, PieceDone/PieceCancel only with a piece in progress -- which by the pair
+   invariant the manager has assigned --, Unchoke/NotInterested only for a connected peer) is sendable *)
+Theorem C12_task_commands_sendable : forall sha1 cf disk ovf a m s ev r k rest,
+  creach sha1 cf disk ovf a m s -> c_pieces_num cf = pieces_n m ->
+  cmds_of (acts_of (hstep sha1 cf disk ovf s ev r)) = k :: rest -> sendable m (to_cmd a k).
+Proof. exact own_first_command_sendable. Qed.
+
 (* and an assignment is asked for at once: C10_assignment (the task writes the first blocks of the piece it was assigned).
    Not modelled: the KillReq window after a task's death. The correspondence evaluates the stronger "has actually been
    asked" form on the real Session with the task's piece in the harness (reserved_backed / asked_ok). Three defects
@@ -64,3 +88,6 @@ Print Assumptions C12_invariant_step.
 Print Assumptions C12_released.
 Print Assumptions C12_task_guarantee.
 Print Assumptions C12_flags_agree.
+Print Assumptions C12_no_manager_panic.
+Print Assumptions C12_wf_preserved.
+Print Assumptions C12_task_commands_sendable.
